@@ -3,7 +3,9 @@ import copy
 import json
 
 from harness import core
+from harness import c15trace
 from harness import gristenv as G
+from harness import tg2v, tg2v_specs
 from harness.histgen import shrink_list
 
 ID = 'C15'
@@ -59,6 +61,8 @@ class Doc(object):
       return orig(eng, table, col, row_id, *a, **k)
     self.e._recompute_one_cell = spy.__get__(self.e, type(self.e))
     self.undo_stack = []     # undo doc-action reprs of the bundles applied so far (most recent last)
+    self.base_names = BASE_NAMES
+    c15trace.install(self)   # spies for the effect traces (translator validation)
 
   # -- observation
   def col_of_name(self):
@@ -191,11 +195,20 @@ def run_bundle(doc, abstract):
     reprs.append(r)
     model.append(m)
   doc.evals = []
+  doc.trace = []
+  doc.tracing = True
   try:
     out = G.apply(doc.e, reprs)
   except Exception as e:          # the engine rolled the bundle back
+    doc.tracing = False
     G.clean(doc.e)
     raise BundleFailed('%s: %s' % (type(e).__name__, e))
+  finally:
+    doc.tracing = False
+  segs = c15trace.segments(doc.trace)
+  if len(segs) != len(reprs):
+    raise core.TieBroken('effect trace: %d user actions seen for %d applied' % (len(segs), len(reprs)))
+  trace = [(r, m, s[1], s[2]) for r, m, s in zip(reprs, model, segs)]
   for m, ret in zip(model, out.retValues):
     if m[0] == 'UAdd' and [int(x) for x in ret] != [r for r, _ in m[2]]:
       raise core.TieBroken('row ids of an add were not the predicted ones: %r vs %r' % (ret, m[2]))
@@ -204,7 +217,8 @@ def run_bundle(doc, abstract):
   after = doc.table()
   if set(after) != st.rows:
     raise core.TieBroken('rows after the bundle %r differ from the predicted %r' % (sorted(after), sorted(st.rows)))
-  return {'before': before, 'model': model, 'evals': list(doc.evals), 'after': after}
+  effect_cases = [c for c in (c15trace.effect_case(doc, r, m, s, ev) for r, m, s, ev in trace) if c is not None]
+  return {'before': before, 'model': model, 'evals': list(doc.evals), 'after': after, 'effect_cases': effect_cases}
 
 
 def run_history(cfg, bundles):
